@@ -380,6 +380,19 @@ def real_list(U, tgt):
     return U.tasks[tgt[1]].children if tgt[0] == 'T' else U.wbss[tgt[1] - 1].roots
 
 
+def link_view(U, t, is_pred):
+    st = getattr(U, 'stale_links', None)
+    if st is not None and (t, is_pred) in st:
+        return st[(t, is_pred)]  # a predecessors/successors view obtained before an earlier call (h_stale_link_view)
+    return U.tasks[t].predecessors if is_pred else U.tasks[t].successors
+
+
+def pick_task(U, name='t'):
+    if getattr(U, 'force_t', None) is not None:
+        return U.force_t
+    return choose(name, U.N)
+
+
 def link_add(S, succ, pred):
     if pred not in S['pr'][succ]:
         S['pr'][succ].append(pred)
@@ -677,14 +690,14 @@ def pick_op(U, kinds, seqlen):
         return Op(f't{t}.{"predecessors" if is_pred else "successors"} = {sq}', run, spec)
 
     if kind in ('pred_append', 'succ_append', 'pred_remove', 'succ_remove'):
-        t = choose('t', N)
+        t = pick_task(U)
         x = choose('x', N)
         is_pred = kind.startswith('pred')
         is_app = kind.endswith('append')
         box = {}
 
         def run():
-            lst = T[t].predecessors if is_pred else T[t].successors
+            lst = link_view(U, t, is_pred)
             box['ret'] = lst.append(T[x]) if is_app else lst.remove(T[x])
 
         def spec(S):
@@ -700,13 +713,13 @@ def pick_op(U, kinds, seqlen):
                   spec)
 
     if kind in ('pred_remove_all', 'succ_remove_all'):
-        t = choose('t', N)
+        t = pick_task(U)
         v = fresh_int('fv', KEY_LO - 1, KEY_HI + 1)
         is_pred = kind.startswith('pred')
         box = {}
 
         def run():
-            lst = T[t].predecessors if is_pred else T[t].successors
+            lst = link_view(U, t, is_pred)
             box['ret'] = lst.remove_all(key_lt_=v)
 
         def spec(S):
@@ -1157,3 +1170,51 @@ def h_stale_view(cfg):
                 wild, extra = r
                 d = snap_diff(exp, post, wild=wild, link_sets=True)
                 check(d is None, 'C16 effect differs from the documented one', detail=_gen(d) + ' [earlier view] ' + sig)
+
+
+def h_stale_link_view(cfg):
+    """task.predecessors / task.successors return view objects too: one kept across another call must still work."""
+    import zlib
+    shape = gen_shape(cfg['N'], cfg['nW'], links=True)
+    if cfg.get('flat') and any(p != -1 for p in shape['parent']):
+        assume(False, 'flat forests only')
+    U = build(shape)
+    t = choose('vt', U.N)
+    is_pred = choose('vkind', 2) == 0
+    view = U.tasks[t].predecessors if is_pred else U.tasks[t].successors
+    op1 = pick_op(U, cfg['ops1'], 1)
+    try:
+        op1.run()
+    except Exception:
+        pass
+    U.stale_links = {(t, is_pred): view}
+    U.force_t = t
+    kinds = ['pred_append', 'pred_remove', 'pred_remove_all'] if is_pred else ['succ_append', 'succ_remove', 'succ_remove_all']
+    op2 = pick_op(U, kinds, 1)
+    desc = describe(shape) + ' :: ' + op1.desc + ' ; then through an earlier ' + ('predecessors' if is_pred else 'successors') + ' view: ' + op2.desc
+    note('desc', desc)
+    note('class', zlib.crc32(desc.encode()))
+    mid = snapshot(U)
+    raised = None
+    try:
+        op2.run()
+    except Exception as e:
+        raised = e
+    post = snapshot(U)
+    sig = _opkind(op1.desc) + ' ; ' + _opkind(op2.desc)
+    for prop in cfg['props']:
+        if prop == 'C01':
+            b = inv_links(post)
+            check(b is None, 'C01 dependency links well-formed', detail=_gen(b) + ' [earlier link view] ' + sig)
+        elif prop == 'C15' and raised is not None:
+            d = snap_diff(mid, post)
+            check(d is None, 'C15 rejected call changed state', detail=_gen(d) + ' [earlier link view] ' + sig)
+        elif prop == 'C16' and raised is None:
+            exp = copy_snap(mid)
+            r = op2.spec(exp)
+            if r is not None:
+                wild, extra = r
+                d = snap_diff(exp, post, wild=wild, link_sets=True)
+                check(d is None, 'C16 effect differs from the documented one', detail=_gen(d) + ' [earlier link view] ' + sig)
+                for lbl, f in extra:
+                    check(f(), 'C16 ' + lbl, detail='[earlier link view] ' + sig)
